@@ -74,9 +74,9 @@ static lzma_ret init_dec(lzma_stream *s, int kind) { return dec_init(s, kind, 0,
 static lzma_ret init_dec_tell(lzma_stream *s, int kind) { return dec_init(s, kind, LZMA_TELL_ANY_CHECK | LZMA_TELL_NO_CHECK | LZMA_TELL_UNSUPPORTED_CHECK, UINT64_MAX); }
 
 // ---- encoders ----------------------------------------------------------------------------------
-enum { EK_EASY0, EK_EASY6, EK_LZMA2_BT4, EK_LZMA2_HC3, EK_DELTA, EK_X86, EK_ARM64_DELTA, EK_ALONE, EK_RAW1, EK_RAW2, EK_RAWDELTA, EK_RAWX86, EK_MT1, EK_INDEX3, EK_INDEX130, EK_INDEX20000, EK_N };
+enum { EK_EASY0, EK_EASY6, EK_LZMA2_BT4, EK_LZMA2_HC3, EK_DELTA, EK_X86, EK_ARM64_DELTA, EK_ALONE, EK_RAW1, EK_RAW2, EK_RAWDELTA, EK_RAWX86, EK_MT1, EK_INDEX3, EK_INDEX130, EK_INDEX10000, EK_N };
 static lzma_index *g_idx[3];
-static const char *EKN[] = { "easy-0", "easy-6", "xz-lzma2-bt4", "xz-lzma2-hc3-lc0lp2pb0", "xz-delta+lzma2", "xz-x86+lzma2", "xz-arm64+delta+lzma2", "alone-lzma1", "raw-lzma1", "raw-lzma2", "raw-delta+lzma2", "raw-x86+lzma2", "mt-threads1-bs64", "index_encoder(3 Records)", "index_encoder(130 Records)", "index_encoder(20000 Records)" };
+static const char *EKN[] = { "easy-0", "easy-6", "xz-lzma2-bt4", "xz-lzma2-hc3-lc0lp2pb0", "xz-delta+lzma2", "xz-x86+lzma2", "xz-arm64+delta+lzma2", "alone-lzma1", "raw-lzma1", "raw-lzma2", "raw-delta+lzma2", "raw-x86+lzma2", "mt-threads1-bs64", "index_encoder(3 Records)", "index_encoder(130 Records)", "index_encoder(10000 Records)" };
 static lzma_options_lzma o_bt4, o_hc3; static lzma_options_delta o_delta = { .type = LZMA_DELTA_TYPE_BYTE, .dist = 3 }; static lzma_options_bcj o_bcj = { .start_offset = 0 };
 static void enc_opts(void) {
 	lzma_lzma_preset(&o_bt4, 6); o_bt4.dict_size = 4096; o_bt4.nice_len = 16;
@@ -104,7 +104,7 @@ static lzma_ret init_enc(lzma_stream *s, int kind) {
 		if (err) { h_fail("slice:str_to_filters", "lzma_str_to_filters rejects \"%s\": %s", str, err); free(str); return LZMA_PROG_ERROR; }
 		free(str); use = g; parsed = 1; }
 	lzma_ret r;
-	if (kind >= EK_INDEX3 && kind <= EK_INDEX20000) { if (parsed) lzma_filters_free(g, NULL); return lzma_index_encoder(s, g_idx[kind - EK_INDEX3]); }
+	if (kind >= EK_INDEX3 && kind <= EK_INDEX10000) { if (parsed) lzma_filters_free(g, NULL); return lzma_index_encoder(s, g_idx[kind - EK_INDEX3]); }
 	switch (kind) {
 	case EK_EASY0: r = lzma_easy_encoder(s, 0, LZMA_CHECK_CRC32); break;
 	case EK_EASY6: r = lzma_easy_encoder(s, 6, LZMA_CHECK_CRC64); break;
@@ -166,7 +166,7 @@ int main(int argc, char **argv) {
 	h_init(); h_watchdog(5, 12);	/* 60 s of CPU inside one element = the call under test does not return */ h_set_init(&obs, 1 << 12); enc_opts();
 	if (argc < 5) { fprintf(stderr, "usage\n"); return 2; }
 	int thorough = !strcmp(argv[2], "thorough"); int shard = atoi(argv[3]), nsh = atoi(argv[4]); long idx = 0;
-	{ static const int NR[3] = { 3, 130, 20000 }; for (int g = 0; g < 3; g++) { g_idx[g] = lzma_index_init(NULL); for (int i = 0; i < NR[g]; i++) lzma_index_append(g_idx[g], NULL, 24 + 4 * (lzma_vli)(i % 5) + (i % 3 == 0 ? 200 : 0), 1 + (lzma_vli)i * 37 % 70000); } }
+	{ static const int NR[3] = { 3, 130, 10000 };	/* 10000 Records encode to about 50 KB: below the 64 KiB output capacity of this harness */ for (int g = 0; g < 3; g++) { g_idx[g] = lzma_index_init(NULL); for (int i = 0; i < NR[g]; i++) lzma_index_append(g_idx[g], NULL, 24 + 4 * (lzma_vli)(i % 5) + (i % 3 == 0 ? 200 : 0), 1 + (lzma_vli)i * 37 % 70000); } }
 	if (!strcmp(argv[1], "dec")) {
 		for (int i = 5; i < argc; i++) {
 			const char *nm = strrchr(argv[i], '/'); nm = nm ? nm + 1 : argv[i];
@@ -184,7 +184,7 @@ int main(int argc, char **argv) {
 			if (idx++ % nsh != shard) continue;
 			if (vs && (k == EK_EASY0 || k == EK_EASY6 || k == EK_ALONE || k >= EK_INDEX3)) continue;
 			if (k >= EK_INDEX3 && in != 0) continue;	// the Index encoder takes no input
-			if (k == EK_INDEX20000 && !thorough) continue;
+			if (k == EK_INDEX10000 && !thorough) continue;
 			char name[64]; inlen = gen_input(in, name); cur_name = name; via_string = 0; is_bcj = 0;
 			char label[64]; snprintf(label, sizeof label, "%s%s", EKN[k], vs ? "(chain-as-string)" : ""); cur_label = label;
 			if (vs) {	// same bytes whether the chain is a structure or its textual form
